@@ -74,9 +74,22 @@ def stream_chunks(cmd):
 
 
 def load(tu_rel, repo=None, extra=()):
-    """tu_rel: path relative to the repo root, e.g. src/timer.cpp"""
+    """tu_rel: path relative to the repo root, e.g. src/timer.cpp -- or a list of such paths, which are parsed as ONE translation
+    unit through an umbrella file of #include lines (the real files, unmodified; used when a unit spans several .cpp files)"""
     repo = repo or REPO
-    key = hashlib.sha256((tree_hash(repo) + '|' + tu_rel + '|' + ' '.join(extra)).encode()).hexdigest()[:24]
+    if isinstance(tu_rel, (list, tuple)):
+        os.makedirs(CACHE, exist_ok=True)
+        name = 'umbrella_' + '_'.join(os.path.basename(t).replace('.cpp', '') for t in tu_rel) + '.cpp'
+        upath = os.path.join(CACHE, name)
+        txt = ''.join('#include "%s"\n' % os.path.join(repo, t) for t in tu_rel)
+        if not os.path.exists(upath) or open(upath).read() != txt:
+            with open(upath, 'w') as f: f.write(txt)
+        return _load(upath, name, repo, extra, absolute=True)
+    return _load(tu_rel, tu_rel, repo, extra, absolute=False)
+
+
+def _load(tu_rel, label, repo, extra, absolute):
+    key = hashlib.sha256((tree_hash(repo) + '|' + label + '|' + ' '.join(extra)).encode()).hexdigest()[:24]
     os.makedirs(CACHE, exist_ok=True)
     path = os.path.join(CACHE, 'ast_%s_%s.pkl' % (os.path.basename(tu_rel), key))
     if os.path.exists(path):
@@ -86,7 +99,7 @@ def load(tu_rel, repo=None, extra=()):
         except Exception:
             pass
     t0 = time.time()
-    chunks = stream_chunks(clang_cmd(os.path.join(repo, tu_rel), repo, extra))
+    chunks = stream_chunks(clang_cmd(tu_rel if absolute else os.path.join(repo, tu_rel), repo, extra))
     tmp = path + '.%d.tmp' % os.getpid()
     with open(tmp, 'wb') as f:
         pickle.dump(chunks, f, protocol=pickle.HIGHEST_PROTOCOL)
@@ -97,7 +110,7 @@ def load(tu_rel, repo=None, extra=()):
         if fn.startswith(pre) and fn.endswith('.pkl') and os.path.join(CACHE, fn) != path:
             try: os.remove(os.path.join(CACHE, fn))
             except OSError: pass
-    sys.stderr.write('[astload] %s: %d chunks in %.1fs\n' % (tu_rel, len(chunks), time.time() - t0))
+    sys.stderr.write('[astload] %s: %d chunks in %.1fs\n' % (label, len(chunks), time.time() - t0))
     return chunks
 
 
